@@ -30,6 +30,13 @@ CHECKS = {
             "The pinned tree's stall is a recorded known finding (2 signatures); any other stall signature fails the check.",
             "virtual time advances only when no thread can run; signatures distinguish where the waiter blocks, whether its last readiness read was stale, and who holds the receive lock",
             "E1+E2", "DESIGN.md#c14"),
+    "C10": ("model_checking",
+            "explicit-state BFS over delivery-controlled event histories replayed on a real Connection pair, canonical-state de-duplication, invariant probes on throw-away rebuilds of every state",
+            "All histories over {send k again (alone / in tuples, async or sync), drop a proxy, pass a proxy back, deliver one frame c->s, deliver one frame s->c, close} "
+            "for 1-2 objects with a bounded number of sends are enumerated to closure (the state space is finite); in every reachable state every live proxy is used, "
+            "everything is dropped and drained to quiescence, and the connection is closed.",
+            "frames are processed FIFO per direction; sequence numbers abstracted from the state key; finalizers run at the reference drop (gc disabled); class cache warmed for user classes",
+            "E1+E3", "DESIGN.md#c10"),
 }
 
 NOT_APPLICABLE = {}
@@ -72,6 +79,8 @@ def main():
         "engines": [
             {"name": "E1", "path": "/verif/mc/sched.py", "serves_properties": sorted(CHECKS),
              "kind_free_text": "controlled logical threads, virtual clock, sim locks/conditions/streams; every choice recorded and replayable"},
+            {"name": "E3", "path": "/verif/mc/bfs.py", "serves_properties": [p for p in ("C10", "C15", "C08", "C02", "C03", "C07", "C17", "C18") if p in CHECKS],
+             "kind_free_text": "replay-based explicit-state BFS over event histories on the real code with canonical-state de-duplication"},
             {"name": "E2", "path": "/verif/mc/explore.py", "serves_properties": [p for p in ("C12", "C13", "C14") if p in CHECKS],
              "kind_free_text": "stateless DFS over schedules of the real code at line granularity (sys.monitoring) with preemption bounding and canonical-state cache"},
         ],
